@@ -29,7 +29,7 @@ def extra_rules(rep, T, tier="quick"):
     F = T.F
     # ---- R2: provenance of `labels`
     from ..disasm_sum import instr_summary
-    for v in ("2.7", "3.8", "3.11", "3.13"):
+    for v in ("2.7", "3.8", "3.11", "3.12", "3.13"):
         opc = T.table_for_version(v)
         K = opc.ns["opmap"]["POP_TOP"]
         seen = {}
@@ -58,6 +58,19 @@ def extra_rules(rep, T, tier="quick"):
         rep.ob("R2", "xdis.bytecode.get_logical_instruction_at_offset", "exception-targets-are-labels@%s" % v, ok2,
                expected="labels.append(target) for every exception-table entry", derived=[show(e.args[1]) for e in apps],
                msg="exception handler targets are not added to the label list")
+        # which components of an (start, end, target, depth, lasti) entry become labels: the handler from 3.11, both range ends too from 3.13
+        import re
+        comps = set()
+        for e in apps:
+            for mm in re.finditer(r"item\([^()]*elem, (\d)\)", show(e.args[1])):
+                comps.add(int(mm.group(1)))
+        vt_ = tuple(int(x) for x in v.split("."))
+        if vt_ >= (3, 11):
+            want_c = {0, 1, 2} if vt_ >= (3, 13) else {2}
+            rep.ob("R2", "xdis.bytecode.get_logical_instruction_at_offset", "exception-entry-components-labelled@%s" % v, comps == want_c,
+                   expected=sorted(want_c), derived=sorted(comps),
+                   msg="dis %s labels %s of each exception-table entry (dis._make_labels_map / _get_instructions_bytes); xdis labels components %s" % (
+                       v, "start, end and target" if vt_ >= (3, 13) else "the target only", sorted(comps)))
     # ---- R3: _get_cache_size_313 table
     g = F.modules["xdis.cross_dis"].ns.get("_get_cache_size_313")
     if not isinstance(g, FuncRef):
